@@ -555,6 +555,127 @@ fn check_builder(seq: &[Push]) -> Option<(String, String)> {
 pub enum C01Case {
     Api(ApiCase),
     Builder(Vec<Push>),
+    Csv(CsvCase),
+}
+
+// ---------------------------------------------------------------------------------------------
+// (c) CSV load
+// ---------------------------------------------------------------------------------------------
+
+#[derive(Clone, Debug, Serialize, Deserialize)]
+pub struct CsvCase {
+    pub n: usize,
+    pub pat: NullPat,
+    pub partition_size: usize,
+}
+
+const CSV_CLASSES: [&str; 18] = [
+    "u8", "u8off", "negint", "u16", "u32", "i64full", "mono", "swing", "const", "bigmono", "f32exact", "fconst", "fmix", "fnan", "sunique", "slen", "sone", "sdict",
+];
+
+pub fn run_csv_case(c: &CsvCase, tr: &mut u64) -> Option<(String, String)> {
+    // logical content: an empty field is NULL (all columns allow NULL)
+    let mut tb = TableBatch::new("t", c.n).col("id", (0..c.n).map(|i| ri(i as i64)).collect());
+    for class in CSV_CLASSES {
+        let vals: Vec<RVal> = column_values(class, c.n)
+            .into_iter()
+            .enumerate()
+            .map(|(i, v)| {
+                if c.pat.is_null(i, c.n) || v == rs("") {
+                    RVal::Null
+                } else if let RVal::Float(b) = &v {
+                    // NaN payloads do not survive text; the canonical NaN does
+                    if f64::from_bits(*b).is_nan() { rf(f64::NAN) } else { v }
+                } else {
+                    v
+                }
+            })
+            .collect();
+        tb = tb.col(&format!("c_{}", class), vals);
+    }
+    let batch = Batch::one(tb);
+    let dir = fresh_dir();
+    let file = dir.join("data.csv");
+    let mut text = String::new();
+    let t = &batch.tables[0];
+    text.push_str(&t.cols.iter().map(|c| c.name.clone()).collect::<Vec<_>>().join(","));
+    text.push('\n');
+    for r in 0..c.n {
+        let fields: Vec<String> = t
+            .cols
+            .iter()
+            .map(|col| match &col.vals[r] {
+                RVal::Null => String::new(),
+                RVal::Int(i) => i.to_string(),
+                RVal::Float(b) => format!("{:?}", f64::from_bits(*b)),
+                RVal::Str(s) => s.clone(),
+            })
+            .collect();
+        text.push_str(&fields.join(","));
+        text.push('\n');
+    }
+    std::fs::write(&file, text).unwrap();
+    let opts = DbOpts::default();
+    let (mut db, r) = Db::open(&opts, Some(dir.join("db")));
+    if !matches!(r, Outcome::Ok(())) {
+        db.destroy();
+        return Some(("csv:open".into(), r.describe()));
+    }
+    let psize = c.partition_size;
+    let f2 = file.clone();
+    *tr += 1;
+    let r = db.call(move |db, rt| {
+        let o = locustdb::LoadOptions::new(&f2, "t").with_partition_size(psize).allow_nulls_all_columns();
+        rt.block_on(db.load_csv(o)).map_err(|e| e.to_string())
+    });
+    let panics = take_panics();
+    let fin = |db: Db, r: Option<(String, String)>| {
+        db.destroy();
+        let _ = std::fs::remove_dir_all(&dir);
+        r
+    };
+    match r {
+        Outcome::Ok(Ok(())) => {}
+        Outcome::Ok(Err(e)) => return fin(db, Some(("csv:load-error".into(), format!("{:?}: load_csv failed: {}", c, e)))),
+        other => {
+            return fin(
+                db,
+                Some((
+                    format!("csv:load-{}:{}", if matches!(other, Outcome::Hang) { "hang" } else { "caller-panic" }, panics.first().map(panic_file).unwrap_or_default()),
+                    format!("{:?}: load_csv {}; panics {:?}", c, other.describe(), panics.iter().map(|p| &p.message).collect::<Vec<_>>()),
+                )),
+            )
+        }
+    }
+    let mut refdb = RefDb::default();
+    refdb.apply(&batch);
+    let rt = refdb.tables["t"].clone();
+    for col in rt.columns.iter() {
+        *tr += 1;
+        match db.query(&format!("SELECT {} FROM t", qident(col))) {
+            Outcome::Ok(Ok(out)) => {
+                // a column without any value is typed by nothing: it reads as NULL throughout
+                if let Some((sig, what)) = compare_rows(&rt, &[col.clone()], &out, "csv") {
+                    return fin(db, Some((format!("csv:{}:{}", col, sig.replace(&format!(":{}:", col), ":")), format!("{:?}: column {}: {}", c, col, what))));
+                }
+            }
+            Outcome::Ok(Err((k, m))) => return fin(db, Some((format!("csv:{}:error:{}", col, k), format!("{:?}: SELECT {} failed: {}: {}", c, col, k, m)))),
+            other => return fin(db, Some(("csv:query-no-answer".into(), other.describe()))),
+        }
+    }
+    fin(db, None)
+}
+
+fn csv_cases() -> Vec<CsvCase> {
+    let mut v = vec![];
+    for n in [1usize, 2, 7, 8, 9, 63, 64, 65] {
+        for pat in PATS {
+            for partition_size in [1usize << 16, 7] {
+                v.push(CsvCase { n, pat, partition_size });
+            }
+        }
+    }
+    v
 }
 
 impl Engine for C01 {
@@ -567,11 +688,11 @@ impl Engine for C01 {
         let depth = if tier == Tier::Quick { 2 } else { 3 };
         Describe {
             level: "model_checking",
-            rule: "(a) every sequence of up to `depth` pushes over the push alphabet (ints of 5+2 magnitude classes, floats incl. -0.0/subnormal/inf/NaN payloads, dictionary / unique / hex / long strings, each with no / alternating / first-row null map, chunk lengths 1,(7),8,9, push_nulls(1|8)) on the real ColumnBuffer, finalized and decoded with the column decoder, compared value by value with the pushed values; (b) every (length in {1,2,7,8,9,63,64,65}, null pattern in {none, all, first, last, alternating, single present, tail}, ingestion path in {wire bytes, native TableBuffer, row API}, representation family, layout in {open buffer, flushed, flushed+reopened, no lz4, two chunks then flushed}) - one table holding all 26 column classes (10 integer, 4 float, 9 string, 3 mixed-type) - ingested into a real database and read back with SELECT c for every column and SELECT *; cells must equal the supplied values (ints exact, floats by bits, strings by bytes, NULL where none was supplied; documented coercion for mixed-type columns). Non-trivial: case contains a non-NULL value; distinct by case description.".into(),
+            rule: "(a) every sequence of up to `depth` pushes over the push alphabet (ints of 5+2 magnitude classes, floats incl. -0.0/subnormal/inf/NaN payloads, dictionary / unique / hex / long strings, each with no / alternating / first-row null map, chunk lengths 1,(7),8,9, push_nulls(1|8)) on the real ColumnBuffer, finalized and decoded with the column decoder, compared value by value with the pushed values; (b) every (length in {1,2,7,8,9,63,64,65}, null pattern in {none, all, first, last, alternating, single present, tail}, ingestion path in {wire bytes, native TableBuffer, row API}, representation family, layout in {open buffer, flushed, flushed+reopened, no lz4, two chunks then flushed}) - one table holding all 26 column classes (10 integer, 4 float, 9 string, 3 mixed-type) - ingested into a real database and read back with SELECT c for every column and SELECT *; cells must equal the supplied values (ints exact, floats by bits, strings by bytes, NULL where none was supplied; documented coercion for mixed-type columns); (c) a generated CSV file with 18 column classes for every length x null pattern x partition size {65536, 7} loaded with load_csv and read back. Non-trivial: case contains a non-NULL value; distinct by case description.".into(),
             assumptions: vec![
                 "2^63-1 and the NaN pattern 0x7ffaaaaaaaaaaaaa are outside the value domain (reserved NULL markers)".into(),
                 "mixed-type columns: a cell may come back as its documented coercion (int -> float, number -> its decimal string)".into(),
-                "CSV ingestion is checked separately with a generated file (thorough tier)".into(),
+                "CSV: an empty field is NULL (all columns loaded with allow_nulls), NaN payloads do not survive text".into(),
             ],
             bounds: json!({"push_alphabet": a, "builder_depth": depth, "api_cases": api_cases(tier).len(), "column_classes": all_classes()}),
             states_meaning: "distinct builder push sequences and distinct API cases executed",
@@ -689,11 +810,43 @@ impl Engine for C01 {
                 out.sample(json!({"api_case": c}));
             }
         }
+        // (c) CSV load of a generated file
+        for (i, c) in csv_cases().iter().enumerate() {
+            if (i + 5) % nshards != shard {
+                continue;
+            }
+            out.evaluations += 1;
+            let h = hash64(format!("{:?}", c).as_bytes());
+            out.states.insert(h);
+            out.nontrivial.insert(h);
+            let mut tr = 0;
+            let r = run_csv_case(c, &mut tr);
+            out.transitions += tr;
+            match r {
+                None => out.outcome("csv-ok"),
+                Some((sig, what)) => {
+                    if std::env::var("LVMC_TRACE").is_ok() {
+                        eprintln!("[trace] {} :: {}", sig, what);
+                    }
+                    out.outcome("csv-violation");
+                    out.violation(Violation {
+                        sig: format!("C01:{}:{:?}", sig, c.pat),
+                        what,
+                        weight: c.n as u64 * 20,
+                        case: serde_json::to_value(C01Case::Csv(c.clone())).unwrap(),
+                    });
+                }
+            }
+        }
     }
 
     fn replay(&self, case: &Value) -> Option<Violation> {
         let c: C01Case = serde_json::from_value(case.clone()).expect("C01 case");
         match c {
+            C01Case::Csv(cc) => {
+                let mut tr = 0;
+                run_csv_case(&cc, &mut tr).map(|(sig, what)| Violation { sig: format!("C01:{}:{:?}", sig, cc.pat), what, weight: 1, case: case.clone() })
+            }
             C01Case::Builder(s) => check_builder(&s).map(|(sig, what)| Violation {
                 sig: format!("C01:{}", sig),
                 what,
